@@ -309,4 +309,97 @@ theorem J1_first {w : Who} {h : Heap} {p : Nat} (hp : WFPlan h p) :
     simp only [List.mem_cons, List.mem_nil_iff, or_false] at he
     rcases he with rfl | rfl <;> simp [Who.addr] <;> omega
 
+/-! ### programs -/
+
+theorem place_tame {f : Gen.Purity.Flow} (hf : f.scopeFreshOnly = true) (m : Mut) : (place f m).tame = true := by
+  cases m <;> simp [place, hf, Mut.tame]
+
+theorem muts_tame {f : Gen.Purity.Flow} (hf : f.scopeFreshOnly = true) (b : Bool) (ms : List Mut) :
+    ∀ i ∈ muts f b ms, i.tame = true := by
+  intro i hi
+  simp only [muts, List.mem_map] at hi
+  obtain ⟨m, _, rfl⟩ := hi
+  exact place_tame hf m
+
+theorem runRest_tame {f : Gen.Purity.Flow} (hf : f.scopeFreshOnly = true) (hr : f.registryWrites = false)
+    (s : Script) : ∀ i ∈ runRest f s, i.tame = true := by
+  intro i hi
+  simp only [runRest, hr, List.mem_append] at hi
+  have hm := fun b ms => muts_tame hf b ms i
+  rcases hi with ((((((hi | hi) | hi) | hi) | hi) | hi) | hi)
+  · exact hm _ _ hi
+  · split at hi
+    · simp only [List.mem_append] at hi
+      rcases hi with ((((hi | hi) | hi) | hi) | hi)
+      · simp only [List.mem_cons, List.mem_nil_iff, or_false] at hi
+        rcases hi with rfl | rfl <;> rfl
+      · exact hm _ _ hi
+      · exact hm _ _ hi
+      · simp only [List.mem_singleton] at hi; subst hi; rfl
+      · exact hm _ _ hi
+    · simp only [List.mem_append, List.mem_singleton] at hi
+      rcases hi with rfl | hi
+      · rfl
+      · exact hm _ _ hi
+  · simp only [List.mem_singleton] at hi; subst hi; rfl
+  · exact hm _ _ hi
+  · simp only [List.mem_singleton] at hi; subst hi; rfl
+  · exact hm _ _ hi
+  · simp at hi
+
+theorem renderRest_tame {f : Gen.Purity.Flow} (hf : f.scopeFreshOnly = true) (hr : f.registryWrites = false)
+    (s : Script) : ∀ i ∈ renderRest f s, i.tame = true := by
+  intro i hi
+  simp only [renderRest, hr, List.mem_append] at hi
+  rcases hi with hi | hi
+  · exact muts_tame hf _ _ i hi
+  · simp at hi
+
+/-- **Frame + write log** for any program of the form "copy first, then tame instructions", cut at any point. -/
+theorem frame_prog {w : Who} {h : Heap} {p : Nat} (hp : WFPlan h p) {rest : List Instr}
+    (ht : ∀ i ∈ rest, i.tame = true) (n : Nat) :
+    (∀ o, o < w.base → (runN w h p (.getMutable false :: rest) n).2 o = h o) ∧
+    (∀ a ∈ (runN w h p (.getMutable false :: rest) n).1.log,
+        Own w (runN w h p (.getMutable false :: rest) n).1.nxt a) := by
+  cases n with
+  | zero => simp [runN, exec, T.init]
+  | succ n =>
+    obtain ⟨hj, hf, _⟩ := J1_first (w := w) hp
+    have ht' : ∀ i ∈ rest.take n, i.tame = true := fun i hi => ht i (List.mem_of_mem_take hi)
+    obtain ⟨hj', hf'⟩ := J1_exec ht' hj
+    have e : runN w h p (.getMutable false :: rest) (n + 1) =
+        exec w (step w (T.init p, h) (.getMutable false)) (rest.take n) := by
+      simp [runN, exec, List.take_succ_cons]
+    rw [e]
+    exact ⟨fun o ho => by rw [hf' o ho, hf o ho], hj'.log⟩
+
+/-- what a caller can reach through a plan lies below the allocation base -/
+structure Below (h : Heap) (b : Nat) (p : Nat) : Prop where
+  plan  : p < b
+  graph : ∀ g sc, h p = some (.plan g sc) → g < b
+  nodes : ∀ g sc ns es ga, h p = some (.plan g sc) → h g = some (.graph ns es ga) → ∀ e ∈ ns, e.1 < b
+
+theorem snapPlan_congr {h h' : Heap} {b p : Nat} (hf : ∀ o, o < b → h' o = h o) (hb : Below h b p) :
+    snapPlan h' p = snapPlan h p := by
+  unfold snapPlan
+  rw [hf p hb.plan]
+  cases hp : h p with
+  | none => rfl
+  | some o =>
+    cases o with
+    | plan g sc =>
+      simp only
+      rw [hf g (hb.graph g sc hp)]
+      cases hg : h g with
+      | none => rfl
+      | some o' =>
+        cases o' with
+        | graph ns es ga =>
+          simp only
+          have : List.map (fun e => (e.1, e.2, h' e.1)) ns = List.map (fun e => (e.1, e.2, h e.1)) ns :=
+            List.map_congr_left (fun e he => by rw [hf e.1 (hb.nodes g sc ns es ga hp hg e he)])
+          rw [this]
+        | _ => rfl
+    | _ => rfl
+
 end Uberjob.Heap
